@@ -20,10 +20,15 @@ NAMES = ["z", "a", "m", "b", "y", "k"]
 
 
 def gen_plan(rng, tier: str, idx: int) -> dict:
-    nkeys = rng.randint(2, 3)
+    nkeys = rng.choice([1, 2, 2, 3, 3])
     names = rng.sample(NAMES, nkeys)
     scales = rng.sample([1.0, 100.0, 1e4, 0.01, 10.0], nkeys)
     keys = [{"name": n, "shape": rng.choice([[], [], [2], [3], [2, 2], [2, 3]]), "scale": s} for n, s in zip(names, scales)]
+    if nkeys == 1:
+        # a block with a single key, mostly with a single flat coordinate (1 x 1 "dense" matrix);
+        # small scales, where the regulariser is not negligible against the variance
+        keys[0]["shape"] = rng.choice([[], [], [1], [2]])
+        keys[0]["scale"] = rng.choice([0.01, 0.01, 0.1, 1.0, 100.0])
     order = list(range(nkeys))
     rng.shuffle(order)
     perm2 = list(range(nkeys))
@@ -204,6 +209,7 @@ def execute(plan: dict) -> dict:
     listed = [plan["keys"][i]["name"] for i in plan["order"]]
     counters["probe.non_alphabetical_key_order"] = int(listed != sorted(listed))
     counters["probe.dense"] = int(not plan["diag"])
+    counters["probe.single_flat_coordinate"] = int(sum(int(np.prod(k["shape"])) if k["shape"] else 1 for k in plan["keys"]) == 1)
     counters["probe.coexisting_kernel"] = int(plan["other"] is not None)
     counters["probe.multiple_slow_epochs"] = int(sum(1 for e in plan["epochs"] if e[0] == 2) > 1)
     T = sum(e[1] for e in plan["epochs"][1:])
